@@ -5,6 +5,21 @@ line of every change kept so far for that property (so that the new ones are dif
 import json, os, sys
 V = os.path.dirname(os.path.dirname(os.path.abspath(__file__)))
 base = sys.argv[1]
+SLANTS = {
+ "sites": """     change 1 should consist of TWO COOPERATING SITES (two functions / two files) that each look fine alone and are only wrong together,
+       or need a MULTI-STEP SEQUENCE of public calls (object built one way, transformed by a second public method, then queried by a third);
+     change 2 should need an UNUSUAL BUT LEGITIMATE INPUT (a rarely combined set of constructor arguments, a structural coincidence
+       such as equal thresholds / repeated sub-structures / ids in a particular sort order / a boundary value of a range, an alternative
+       entry point such as from_json / from_list / from_short / from_cicJE / module level alias / sub class) or an error path taken first;""",
+ "helpers": """     change 1 should be made in a HELPER, BASE CLASS or DUNDER METHOD that several public methods rely on (puan/__init__.py: Bounds, variable,
+       their __eq__/__hash__/__lt__/__iter__; puan/misc; variable_ndarray.__new__/__array_finalize__; AtLeast.__init__/__eq__/__hash__/
+       flatten/_dependencies/_id_generator; sorting and de-duplication of sub-propositions), so that its effect on the property is INDIRECT
+       and shows only for particular inputs;
+     change 2 should change the treatment of a DOCUMENTED BUT RARELY USED PARAMETER, default argument or optional input form of a public
+       method the property mentions (a keyword that is normally left at its default, a second positional form, an iterable instead of a list,
+       a numpy scalar instead of an int, an empty / singleton / duplicated collection, a model that mixes configurator and plain classes);""",
+}
+slant = SLANTS[sys.argv[2] if len(sys.argv) > 2 else "sites"]
 props = {}
 for l in open(f"{V}/properties.jsonl"):
     p = json.loads(l); props[p["id"]] = p
@@ -37,11 +52,7 @@ Produce TWO independent changes (each applies alone to the clean worktree):
  (a) each breaks the property above for some inputs / call sequences, demonstrably;
  (b) each still lets `python3 {base}/baseline.py {wt}` exit 0;
  (c) each needs something SPECIFIC to manifest, not something ordinary use would show at once.  For this round:
-     change 1 should consist of TWO COOPERATING SITES (two functions / two files) that each look fine alone and are only wrong together,
-       or need a MULTI-STEP SEQUENCE of public calls (object built one way, transformed by a second public method, then queried by a third);
-     change 2 should need an UNUSUAL BUT LEGITIMATE INPUT (a rarely combined set of constructor arguments, a structural coincidence
-       such as equal thresholds / repeated sub-structures / ids in a particular sort order / a boundary value of a range, an alternative
-       entry point such as from_json / from_list / from_short / from_cicJE / module level alias / sub class) or an error path taken first;
+{slant}
  (d) the two changes must be DIFFERENT from these mechanisms, which are already known (one characteristic added line of each):
      {known}
  (e) keep each change small (a few lines to ~25 lines), in the style of the surrounding code, without comments that give it away.
@@ -67,5 +78,5 @@ for pid, p in sorted(props.items()):
     if not isinstance(anchors, str): anchors = json.dumps(anchors)
     stmt = p.get("statement") or p.get("text") or ""
     open(f"{base}/prompts/{pid}.txt", "w").write(T.format(wt=f"{base}/{pid}/wt", out=f"{base}/{pid}/out", base=base, pid=pid,
-         title=p.get("title", ""), stmt=stmt, anchors=anchors, known=" ; ".join(known)))
+         title=p.get("title", ""), stmt=stmt, anchors=anchors, known=" ; ".join(known), slant=slant))
 print("ok", len(props))
